@@ -118,7 +118,7 @@ func ParseContractFile(path, pkgPath string) ([]*Block, error) {
 		if ct == "" {
 			continue
 		}
-		if strings.HasPrefix(ct, "--") || strings.HasPrefix(ct, "import ") || strings.HasPrefix(ct, "heap ") || strings.HasPrefix(ct, "abstract type ") || strings.HasPrefix(ct, "immutable ") || strings.HasPrefix(ct, "atomic-only ") { // comments and directives
+		if strings.HasPrefix(ct, "--") || strings.HasPrefix(ct, "import ") || strings.HasPrefix(ct, "heap ") || strings.HasPrefix(ct, "abstract type ") || strings.HasPrefix(ct, "immutable ") || strings.HasPrefix(ct, "atomic-only ") || strings.HasPrefix(ct, "no-mutable-globals ") { // comments and directives
 			continue
 		}
 		if kw := startsWithKW(ct, blockKW); kw != "" && !strings.HasPrefix(c, " ") && !strings.HasPrefix(c, "\t") {
